@@ -613,8 +613,9 @@ def run(ctx):
         specs.append(phase_cli.make_spec(rng, trio=(i % 2 == 0), tag=("PS" if i % 4 < 2 else "HP"), low_cov_gaps=(i % 5 != 0),
                                          k=rng.choice([4, 6, 8, 15]), depth_reads=rng.randint(15, 60)))
     for nv in ctx.n([70, 70, 140], [70, 70, 140, 140, 140]):
-        specs.append(phase_cli.make_large_spec(rng, nv, trio=(nv == 140), tag=rng.choice(["PS", "HP"]), low_cov_gaps=True,
-                                               k=rng.choice([2, 4]), depth_reads=nv * 4))
+        # no master block here: the all-pairs edge list of a 100-position master block makes the L1 table too slow
+        specs.append(phase_cli.make_large_spec(rng, nv, trio=False, tag=rng.choice(["PS", "HP"]), low_cov_gaps=True,
+                                               k=2, depth_reads=nv * 4, phased_input=False))
     check_cli(ctx, specs, "cli")
     check_cli(ctx, gen_junction_specs(ctx), "jn")
 
